@@ -362,7 +362,8 @@ def main_check(check, argv=None):
             continue
         # every class is reported; only the first max_reported unknown ones are minimised (time budget)
         shrunk += 1
-        small, nruns = shrink(check, plan, cls, check.shrink_budget if shrunk <= check.max_reported else 0)
+        small, nruns = shrink(check, plan, cls, check.shrink_budget if shrunk <= check.max_reported and
+                              not os.environ.get('VERIF_NO_SHRINK') else 0)   # (sensitivity runs only need the verdict)
         h, viol, res = evaluate(check, small)
         smsg = [m for c, m in viol if c == cls]
         smsg = smsg[0] if smsg else msg
